@@ -79,7 +79,9 @@ fn yaml_for(cfg: &LCfg, dir: &std::path::Path) -> String {
     if !cfg.loggers.is_empty() {
         y.push_str("loggers:\n");
         for l in &cfg.loggers {
-            y.push_str(&format!("  \"{}\":\n    level: {}\n    additive: {}\n    appenders: [{}]\n", l.name, lv(l.level), l.additive, l.appenders.join(", ")));
+            // (YAML limits implicit keys to 1024 characters: long names are written as explicit keys)
+            let key = if l.name.len() > 900 { format!("  ? \"{}\"\n  :\n", l.name) } else { format!("  \"{}\":\n", l.name) };
+            y.push_str(&format!("{}    level: {}\n    additive: {}\n    appenders: [{}]\n", key, lv(l.level), l.additive, l.appenders.join(", ")));
         }
     }
     y
